@@ -1,0 +1,10 @@
+//go:build verif
+
+// Contracts checked by /verif/govc (comment-only file; see /verif/DESIGN.md, property C27).
+package ast
+
+//@ # positions are only used in error messages by the rule compiler: ASSUMED total and effect-free
+//@ interface Node.Pos
+//@   pure
+//@ interface Node.End
+//@   pure
